@@ -539,6 +539,10 @@ func hexList(ps [][]byte) string {
 
 // proof = GetProof + completeness check. Returns the proof (nil if none).
 func (w *world) proof(key []byte) [][]byte {
+	if w.stale { // GetProof serialises nodes from their cached bytes, which may be stale now (see `stale`)
+		w.o.Count("lazy:proof-skipped")
+		return nil
+	}
 	var ps [][]byte
 	obs := hx.Safe(func() string {
 		p, err := w.tr.GetProof(key)
@@ -548,6 +552,11 @@ func (w *world) proof(key []byte) [][]byte {
 		ps = p
 		return "proof " + hexList(p)
 	})
+	if w.lazy { // records are missing: GetProof may fail for a present key; only the lazy model is compared
+		w.o.Count("lazy:proof:" + strings.SplitN(obs, " ", 2)[0])
+		w.o.Line("proof "+hx.Hex(key), obs)
+		return ps
+	}
 	want, ok := w.ref[string(key)]
 	if ok && len(key) <= mpt.MaxKeyLength && obs == "err" {
 		w.o.Fail("proof-missing", w.k, "GetProof(%x) failed for a present key", key)
